@@ -118,8 +118,8 @@ class Ref:
             return f"ok found {LIBNAME[self.lib[i]]}" if self.status[i] == "created" else "ok notfound"
         if c == "appptr":
             i = int(t[1])
-            if self.vsbx and self.status[i] != "created":
-                return "abort"
+            if self.status[i] != "created":
+                return None     # get_app_pointer outside the window is not specified by C14 (depends on the backend having memory)
             return "ok"
         if c == "hprobe":
             i = int(t[1])
